@@ -410,6 +410,9 @@ func (p *pathCtx) mergeAdjacent(a, b symStr) (symStr, bool) {
 		return symStr{}, false
 	}
 	if lit, ok := isConcreteStr(a); ok && b.buf.name != "const" && len(lit) > 0 && len(lit) <= 8 {
+		if b.off.IsConst() && b.off.val < uint64(len(lit)) {
+			return symStr{}, false
+		}
 		L := ts.BV(uint64(len(lit)), 64)
 		start := ts.BvBin(OpBvSub, b.off, L)
 		cond := ts.Cmp(OpBvUle, L, b.off)
